@@ -3,6 +3,7 @@ from core import Case, psec
 from props.cardutil import digits, rb
 
 OBLIGATIONS = ["Psec.Props.C16.encode_iso0_domain", "Psec.Props.C16.encode_iso2_domain", "Psec.Props.C16.encode_iso3_domain", "Psec.Props.C16.encode_pin_field_iso4_domain", "Psec.Props.C16.encode_pan_field_iso4_domain", "Psec.Props.C16.encipher_iso4_domain", "Psec.Props.C16.decoders_only_value_error", "Psec.Props.C16.decipher_iso4_only_value_error", "Psec.Props.C16.cvv_domain", "Psec.Props.C16.pvv_domain", "Psec.Props.C16.ibm_pin_domain", "Psec.Props.C16.ibm_offset_domain", "Psec.Props.C16.cbc_mac_des_domain", "Psec.Props.C16.cbc_mac_aes_domain", "Psec.Props.C16.retail_mac_domain", "Psec.Props.C16.tdes_wrappers_domain", "Psec.Props.C16.aes_wrappers_domain", "Psec.Props.C16.key_utils_domain"]
+PLATFORM_ASSERTIONS = True   # quick tier too: these two properties lean hardest on Py.lean's account of the built-ins
 TABLE_OBLIGATIONS = ["Psec.Tables.ascii_n_agree", "Psec.Tables.ascii_an_agree", "Psec.Tables.ascii_pa_agree", "Psec.Tables.ascii_h_agree", "Psec.Tables.ascii_predicates"]   # model = tables regenerated from the source (harness/tables.py)
 TRUSTED_BASE = ["Lean 4.33 kernel", "which Python operations can raise and what they raise is modelled, not verified (Py.lean)", "correspondence harness and compiled driver"]
 RULE = ("for every text parameter of every function: all lengths around each bound x hostile alphabet (full-width, Arabic-Indic, Devanagari, mathematical and "
